@@ -271,6 +271,34 @@ def check_json_autoescape(ctx, prog, tag):
            "the Json arm of write_escaped passes the output to %s" % sinks, we.loc)
 
 
+def check_handle_registry(ctx, prog, tag):
+    """T6: an embedded template value travels through serde as a handle into a thread-local registry.  The producer
+    (`<Value as Serialize>::serialize`) only registers it; the entry is taken out by the consumer that resolves the
+    handle (`SerializeTupleStruct::end` of the value serializer) and by nobody else.  A serializer may buffer the
+    marker and replay it later (serde's flatten / tagged-enum `Content`), so removing the entry right after the marker
+    was written turns the value into "value handle not in registry"."""
+    REG = "minijinja::value::ValueHandleRegistry::"
+    users = {}
+    for f in prog.fns.values():
+        for c in f.calls():
+            if c.name.startswith(REG) and c.name.split("::")[-1] in ("insert", "remove", "clear", "take", "get"):
+                users.setdefault(c.name.split("::")[-1], []).append(f)
+    if not users:
+        ctx.count("configs without the handle registry")
+        return
+    PROD = "<minijinja::value::Value as serde_core::ser::Serialize>::serialize"
+    CONS = "<minijinja::value::serialize::SerializeTupleStruct as serde_core::ser::SerializeTupleStruct>::end"
+    for op, allowed in (("insert", PROD), ("remove", CONS)):
+        fs = users.get(op, [])
+        ctx.ob("C16.T6.handle-registry-%s-site" % op, tag + op, bool(fs) and all((g.root or g.path) == allowed or g.path.startswith(allowed) for g in fs),
+               "ValueHandleRegistry::%s is called from %s; expected only %s: an entry removed by anyone but the consumer "
+               "that resolves the handle is missing when a buffering serializer replays the marker" % (
+                   op, sorted({g.path for g in fs}), allowed), fs[0].loc if fs else "")
+    for op in ("clear", "take"):
+        for g in users.get(op, []):
+            ctx.ob("C16.T6.handle-registry-%s-site" % op, tag + g.path, False, "registry emptied by %s" % g.path, g.loc)
+
+
 def run(ctx):
     ctx.explain("C16 (tojson HTML-safety clause only): structural filter rule on the closure that post-processes the "
                 "serialised JSON: the only returned safe string is a buffer written char by char, the default arm "
@@ -321,6 +349,7 @@ def run(ctx):
         check_serialization_scope(ctx, prog, tag)
         check_scalar_tables(ctx, prog, tag)
         check_json_autoescape(ctx, prog, tag)
+        check_handle_registry(ctx, prog, tag)
     # positive control
     cprog = ctx.controls
     sub = type(ctx)(ctx.prop, ctx.tier, ctx.repo)
